@@ -3,7 +3,7 @@ From Coq Require Import List Arith Bool Lia.
 From OW Require Import Sim.SimAux Sim.SimAuxProofs Sim.Graph.
 Import ListNotations.
 
-Set Implicit Arguments.
+
 
 Lemma sorted_nat_cons_Forall x r : sorted_nat (x :: r) = true -> Forall (fun y => x <= y) r /\ sorted_nat r = true.
 Proof.
@@ -138,7 +138,7 @@ Section Valid.
     Proof. intros H. rewrite <- m_start_S. apply m_start_mono; lia. Qed.
 
     Lemma m_count_add g : g < G -> m_start md g + m_count md g = m_stop md g.
-    Proof. intros H. unfold m_count. pose proof (m_start_le_stop H). lia. Qed.
+    Proof. intros H. unfold m_count. pose proof (m_start_le_stop g H). lia. Qed.
 
     Lemma m_total_start : m_total md = m_start md G.
     Proof.
